@@ -42,6 +42,10 @@ def fail(reason: str) -> bool:
     return False
 
 
+class HarnessDefect(Exception):
+    """Raised by a replay/validation routine when the harness itself (encoding, stub, reference model) is wrong."""
+
+
 @dataclass
 class Obligation:
     pid: str
